@@ -123,7 +123,9 @@ namespace rkcommon {
         consume(s, '"');
         char *begin = s;
         while (*s != '"') {
-          if (*s == '\\')
+          if (*s == 0)
+            throw std::runtime_error("XML error: unterminated string");
+          if (*s == '\\' && s[1] != 0)
             ++s;
           ++s;
         }
@@ -134,7 +136,9 @@ namespace rkcommon {
         consume(s, '\'');
         char *begin = s;
         while (*s != '\'') {
-          if (*s == '\\')
+          if (*s == 0)
+            throw std::runtime_error("XML error: unterminated string");
+          if (*s == '\\' && s[1] != 0)
             ++s;
           ++s;
         }
